@@ -2,6 +2,7 @@ package main
 
 import (
 	"fmt"
+	"io"
 	"regexp"
 	"strings"
 	"time"
@@ -187,6 +188,27 @@ func buildNetwork(mode string) func(c sessCfg) (*sess, error) {
 
 		return s, s.nd.Open()
 	}
+}
+
+// buildNetworkOnOpen: not opened; the on-open hook acquires the default privilege level.
+func buildNetworkOnOpen(c sessCfg) (*sess, error) {
+	s := &sess{cli: stdCLI("exec")}
+	s.pipe = c.pipe(s.cli)
+	o := append(c.base(s.pipe), options.WithPrivilegeLevels(stdLevels()), options.WithDefaultDesiredPriv("privilege-exec"),
+		options.WithAuthSecondary(stdSecret), options.WithNetworkOnOpen(func(d *network.Driver) error { return d.AcquirePriv("privilege-exec") }))
+
+	var err error
+
+	s.nd, err = network.NewDriver("sim", o...)
+
+	return s, err
+}
+
+// buildGenericChanLog: a generic session with a channel log configured.
+func buildGenericChanLog(c sessCfg) (*sess, error) {
+	c.extra = append(c.extra, options.WithChannelLog(io.Discard))
+
+	return buildGeneric("exec")(c)
 }
 
 func buildLogin(kind string) func(c sessCfg) (*sess, error) {
@@ -388,6 +410,19 @@ func faultOps() []*faultOp {
 
 				return r.JoinedResult(), nil
 			}},
+		{name: "n.open.onopen", openIsOp: true, build: buildNetworkOnOpen,
+			// Open of a network driver whose on-open hook escalates (what every platform definition does): a loss during the hook
+			// must make Open fail
+			run: func(s *sess, _ []util.Option, _ time.Duration) (string, error) { return "", s.nd.Open() }},
+		{name: "g.sendcommand.chanlog", perOp: true, build: buildGenericChanLog,
+			run: func(s *sess, o []util.Option, _ time.Duration) (string, error) {
+				r, err := s.gd.SendCommand("show v7", o...)
+				if err != nil {
+					return "", err
+				}
+
+				return r.Result, nil
+			}, next: showW5, nextWant: "omega"},
 		{name: "telnet.open", openIsOp: true, build: buildLogin("telnet"),
 			run: func(s *sess, _ []util.Option, _ time.Duration) (string, error) { return "", s.gd.Open() }, next: showW5, nextWant: "omega"},
 		{name: "ssh.open", openIsOp: true, build: buildLogin("ssh"),
